@@ -1,5 +1,6 @@
 (* C06 — Object behaves as a string-keyed map with reference semantics under any program. *)
 From Anytype Require Import Base FloatBits Value Heap ObjectProofs.
+From Anytype Require Import HeapExt HeapExtProofs.
 From Anytype Require CloneProofs. From Anytype Require Import Footprint.
 From Coq Require Import Permutation.
 Local Open Scope Z_scope.
@@ -76,6 +77,18 @@ Theorem C06_mutator_independent : forall s o r vr w f, basic_mutator o = Some r 
   reify f (st_heap (fst (step_core s o))) w = reify f (st_heap s) w.
 Proof. exact basic_mutator_independent. Qed.
 
+
+(* NewListFrom / NewObjectFrom (HeapExt.v): a []any / map[string]any tree whose leaves are scalars or live containers becomes NEW
+   cells only (the old heap is a prefix of the new one), the result reads back as the value the source denotes, and a leaf that is
+   a live container is stored by reference (store_src on a leaf returns the operand itself) *)
+Theorem C06_new_from_appends : forall env n h h' v, store_src env h n = Some (h', v) -> exists extra, h' = h ++ extra.
+Proof. exact store_src_extends. Qed.
+Theorem C06_new_from_content : forall env h n h' v f0, leaves_readable env h f0 n -> store_src env h n = Some (h', v) ->
+  exists f1 t, forall f, (f1 <= f)%nat -> src_val f h env n = Some t /\ reify f h' v = src_val f h env n.
+Proof. exact store_src_reify_enough. Qed.
+Theorem C06_new_from_leaf_by_reference : forall env h o, store_src env h (NOp o) = match eval_operand env o with Some v => Some (h, v) | None => None end.
+Proof. reflexivity. Qed.
+
 Print Assumptions C06_set.
 Print Assumptions C06_set_lookup.
 Print Assumptions C06_set_odd_panics.
@@ -93,3 +106,6 @@ Print Assumptions C06_typeof_undefined.
 Print Assumptions C06_contains.
 Print Assumptions C06_mutator_footprint.
 Print Assumptions C06_mutator_independent.
+Print Assumptions C06_new_from_appends.
+Print Assumptions C06_new_from_content.
+Print Assumptions C06_new_from_leaf_by_reference.
